@@ -121,7 +121,11 @@ class TimeTriggerDecorator(TriggerDecorator):
                 )
                 if time_next is None:
                     _LOGGER.debug("trigger %s finished", self.name)
-                    if isinstance(self.dm, WaitUntilDecoratorManager):
+                    self.no_more_times = True
+                    if isinstance(self.dm, WaitUntilDecoratorManager) and all(
+                        getattr(dec, "no_more_times", False) for dec in self.dm.get_decorators(TriggerDecorator)
+                    ):
+                        # only time triggers were given and none of them has a future time
                         await self.dispatch(DispatchData({"trigger_type": "none"}))
                     break
 
